@@ -79,6 +79,32 @@ class _Found(Exception):
     pass
 
 
+class _CaseTimeout(BaseException):
+    pass
+
+
+def guarded_run(arm, case, ctx):
+    """Run one case under a wall-clock guard.  A case that exceeds it is 'inconclusive' (rejected), never a
+    violation: the guard only protects the campaign from a single runaway integration."""
+    import signal
+    from .common import CaseResult
+    limit = getattr(arm, "case_timeout", 90)
+
+    def handler(signum, frame):
+        raise _CaseTimeout()
+    old = signal.signal(signal.SIGALRM, handler)
+    signal.setitimer(signal.ITIMER_REAL, limit)
+    try:
+        return arm.run(case, ctx)
+    except _CaseTimeout:
+        res = CaseResult()
+        res.rejected = "case-timeout(inconclusive)"
+        return res
+    finally:
+        signal.setitimer(signal.ITIMER_REAL, 0)
+        signal.signal(signal.SIGALRM, old)
+
+
 def _settings(n, phases, steps=None):
     from hypothesis import HealthCheck, settings
     kw = dict(max_examples=n, database=None, deadline=None, derandomize=False, report_multiple_bugs=False,
@@ -112,7 +138,7 @@ def run_hypothesis(arm, ctx, spec, stats):
             if over_budget() and mode == "collect":
                 stats.skipped_budget += 1
                 return
-            res = arm.run(case, ctx)
+            res = guarded_run(arm, case, ctx)
             stats.add(case, res)
             if target is not None and any(v["bucket"] == target for v in res.violations):
                 fails.append(case)
@@ -175,11 +201,11 @@ def main(argv=None):
             for i, case in enumerate(arm.enumerate(ctx)):
                 if i % nsh != k:
                     continue
-                stats.add(case, arm.run(case, ctx))
+                stats.add(case, guarded_run(arm, case, ctx))
         elif mode == "replay":
             results = []
             for case in spec["cases"]:
-                res = arm.run(case, ctx)
+                res = guarded_run(arm, case, ctx)
                 stats.add(case, res)
                 results.append(res.to_json())
             report["replay_results"] = results
